@@ -25,3 +25,5 @@ func verifReady(string, ...bool) bool { return false }
 func verifPick(string, ...bool) {}
 
 func verifTook(string, int) {}
+
+func verifOrderStreams([]*Stream) {}
